@@ -5,7 +5,7 @@
    computed from the Prim references only (Base58Check of Prim/Base58.v over Prim/Sha256.v, SEC1 and
    scalar multiplication of Prim/Secp256k1.v, RIPEMD-160 of Prim/Ripemd160.v).  Where the property does not
    fix the value (version byte of a WIF other than 80) the column still says "an error or a value, never a
-   panic" (ERR~OK:*;*;*).
+   panic" (alternatives ERR or OK with wildcard fields).
 
    ops (text = hex of the UTF-8 bytes, flag/compressed = 0|1, prefix = one byte in hex):
      key.from_wif text                    -> key (to_bytes);compressed;key (to_hex)
@@ -87,7 +87,7 @@ Definition spec_from_wif (s : string) : string :=
           | None => "ERR"
           | Some _ =>
               (* the property speaks about mainnet WIF (version 80); for other version bytes it only excludes a panic *)
-              if byte_eqb (hd x00 payload) x80 then "OK:" +++ spec_show_key kb c else "ERR~OK:*;*;*"
+              if byte_eqb (hd x00 payload) x80 then "OK:" +++ spec_show_key kb c else "ERR~*;*;*"
           end
       end
   end.
